@@ -357,3 +357,4 @@ def check(ctx, rep):
     shared.own_namespace_lookups(ctx, rep, "C09.NS")
     metarules.preparer_registration(ctx, rep, "C09.PREP")
     metarules.parent_ctor_guard(ctx, rep, "C09.PAR")
+    metarules.for_class_rule(ctx, rep, "C09.META", ("mro", "attrs"))
